@@ -57,8 +57,9 @@ func workerSearch(results []interface{}, ctrChanged chan<- struct{}, f func(int)
 		i := atomic.AddInt64(ctr, -1)
 		if i >= 0 {
 			results[i] = res
+			// only notify once the result is in place: the caller counts these notifications
+			ctrChanged <- struct{}{}
 		}
-		ctrChanged <- struct{}{}
 	}
 }
 
@@ -144,15 +145,20 @@ func (p *Pool) Search(count int, f func() interface{}) []interface{} {
 		results:    results,
 	}
 	cmdI := 0
+	// the number of results that have been stored, each one is notified exactly once
+	received := 0
 	for cmdI < p.workerCount {
 		select {
 		case p.commands <- cmd:
 			cmdI++
 		case <-ctrChanged:
+			received++
 		}
 	}
-	for atomic.LoadInt64(&ctr) > 0 {
+	// wait for every notification, so that all results are in place and no worker is left blocked on its send
+	for received < count {
 		<-ctrChanged
+		received++
 	}
 
 	return results
@@ -171,6 +177,8 @@ func (p *Pool) Parallelize(count int, f func(int) interface{}) []interface{} {
 	ctr := int64(count)
 	ctrChanged := make(chan struct{})
 	cmdI := 0
+	// the number of tasks that have notified their completion
+	received := 0
 	for cmdI < count {
 		cmd := command{
 			search:     false,
@@ -187,10 +195,13 @@ func (p *Pool) Parallelize(count int, f func(int) interface{}) []interface{} {
 		case p.commands <- cmd:
 			cmdI++
 		case <-ctrChanged:
+			received++
 		}
 	}
-	for atomic.LoadInt64(&ctr) > 0 {
+	// wait for every notification (one per task), so that no worker is left blocked on its send
+	for received < count {
 		<-ctrChanged
+		received++
 	}
 
 	return results
